@@ -16,7 +16,7 @@ for sid in sorted(last):
         continue
     meta = json.load(open(mp))
     own = sid[:3]
-    rnd = {"": 1, "b": 2, "c": 3, "d": 4, "e": 5}[sid[3:]]
+    rnd = {"": 1, "b": 2, "c": 3, "d": 4, "e": 5, "f": 6, "g": 7}[sid[3:]]
     per_round.setdefault(rnd, [0, 0])[1] += 1
     caught = "; ".join("%s: %s" % (q, ", ".join(c["subchecks"][:2])) for q, c in r["checks"].items() if c["violation"])
     n = notes.get(sid, {})
@@ -74,7 +74,9 @@ author would again find dimensions the generators hold fixed. The misses fell in
    From the fourth round on the authors moved to call order: a declaration or value issued *after* a first transcription
    (C05 late term, C12 edit through a sub-stage, C13 options edited in place, C09/C13 set_value followed by set_initial,
    C18 guess for a free horizon dropped on save) — histories are C13's subject, and several of these were caught there
-   first and only then added to the aimed check;
+   first and only then added to the aimed check; the sixth round moved on to cloned stages (a clone losing its algebraic
+   equations, its set_der scale, its inf_inert placeholder) — every property except C12 builds its stages directly, so these
+   are C12's to catch, and its templates were enriched accordingly;
 3. an observable the check did not look at — collocation root times in C06, raw variable identity at roots in
    C07, accessor membership after load in C18, the second derivative of a spline with T≠1 in C16/C17, the start
    of the local time grid in C11, which root a scaled algebraic guess leads to in C14, what the parent's own
